@@ -34,6 +34,9 @@ type Runner struct {
 	Regimes map[string]int
 	Last    string // one-line summary of the last op (replay mode)
 	Tag     string // "h=<history number>" — lets a disagreeing op line be traced back to its history
+	// PostTrain: node ids whose document vector was set / changed by a batch that began with the
+	// quantiser already trained (see Sim.DocDists)
+	PostTrain map[uint64]bool
 }
 
 func (r *Runner) replay() string { return strings.Join(r.Hist, "\n") }
@@ -93,14 +96,36 @@ func (r *Runner) Write(o Op) (ok bool) {
 	if r.Mode == "c10" {
 		r.judgeWF(o, d)
 		r.stepLine(o, d)
+		r.docLines(o, d)
 	} else {
 		// the same state clauses guard C03's hypothesis; reported under C10's signatures only there
 		if v := d.WFViolations(r.Sim.Cfg.R); len(v) > 0 {
 			r.Out.Stats["wf-broken-state"]++
 		}
 	}
+	r.notePostTrain(d)
 	r.Prev = d
 	return true
+}
+
+func (r *Runner) notePostTrain(d *Dump) {
+	prev := r.Prev
+	if r.PostTrain == nil {
+		r.PostTrain = map[uint64]bool{}
+	}
+	for id := range r.PostTrain {
+		if _, ok := d.DocVec[id]; !ok {
+			delete(r.PostTrain, id)
+		}
+	}
+	if prev == nil || prev.Quant == "" {
+		return
+	}
+	for id, v := range d.DocVec {
+		if pv, ok := prev.DocVec[id]; !ok || !sameVec(pv, v) || prev.NodeUUID[id] != d.NodeUUID[id] {
+			r.PostTrain[id] = true
+		}
+	}
 }
 
 func (r *Runner) judgeWF(o Op, d *Dump) {
@@ -123,6 +148,87 @@ func (r *Runner) judgeWF(o Op, d *Dump) {
 		r.fail("ids:"+Kinds(idv)+":after="+opTag(o), "node id bookkeeping broken after "+o.Kind+": "+strings.Join(idv, "; "))
 	}
 	r.Regimes[fmt.Sprintf("nodes=%d", len(d.Nodes)/4*4)]++
+}
+
+// docLines: the tie between the points bucket and the index change stream. For every element of the
+// batch whose point is named once, the model's `pstep` (top-level merge, `dec.Query(schema path)` on the
+// old and the new document, getOperation / preProcessVamana) gets the stored document before, the
+// incoming document and whether the index held a vector for the node; it must reproduce the document
+// stored afterwards and say whether the index holds a vector for the node now (and, for the plain store,
+// which one) — i.e. which changes reach the index at all, for flat and nested schema paths alike.
+func (r *Runner) docLines(o Op, d *Dump) {
+	prev := r.Prev
+	if prev == nil {
+		return
+	}
+	cfg := r.Sim.Cfg
+	count := map[int]int{}
+	for _, p := range o.Pts {
+		count[p.Idx]++
+	}
+	for _, p := range o.Pts {
+		if count[p.Idx] != 1 {
+			continue
+		}
+		u := PointUUID(p.Idx)
+		tags := VecTags{}
+		old, inc := "~", "~"
+		pid, existed := prev.UUIDNode[u]
+		id := pid
+		switch o.Kind {
+		case "ins":
+			nid, ok := d.UUIDNode[u]
+			if existed || !ok {
+				continue
+			}
+			id = nid
+			inc = FlatDoc(MergeTop(nil, cfg.DocOf(p)), tags)
+		case "upd":
+			if !existed {
+				continue // unknown point: skipped by the shard (nothing to observe by node id)
+			}
+			old = FlatDoc(prev.Docs[pid], tags)
+			inc = FlatDoc(cfg.DocOf(p), tags)
+		case "del":
+			if !existed {
+				continue
+			}
+			old = FlatDoc(prev.Docs[pid], tags)
+		}
+		if _, reused := prev.NodeUUID[id]; o.Kind == "ins" && reused {
+			continue
+		}
+		raw := 0
+		wasvec, isvec := "-", "?"
+		if cfg.PlainStore() {
+			raw = 1
+			isvec = "-"
+			if v, ok := prev.RawVec[id]; ok && prev.Vecs[id] {
+				wasvec = strconv.Itoa(tags.Of(v))
+			}
+		}
+		now := "~"
+		if m, ok := d.Docs[id]; ok && d.NodeUUID[id] == u {
+			now = FlatDoc(m, tags)
+		}
+		if raw == 1 {
+			if v, ok := d.RawVec[id]; ok && d.Vecs[id] {
+				isvec = strconv.Itoa(tags.Of(v))
+			}
+		}
+		b2i := func(b bool) int {
+			if b {
+				return 1
+			}
+			return 0
+		}
+		line := fmt.Sprintf("doc %s vp=%s op=%s id=%d old=%s inc=%s was=%d wasvec=%s raw=%d", r.Tag, cfg.PathCodes(), o.Kind, id, old, inc, b2i(prev.Vecs[id] && !prev.Fresh), wasvec, raw)
+		kind := "doc:flat:" + o.Kind
+		if cfg.Nested() {
+			kind = "doc:nested:" + o.Kind
+		}
+		r.Out.Emit(kind, line, fmt.Sprintf("new=%s inV=%d vec=%s", now, b2i(d.Vecs[id] && !d.Fresh), isvec), old != "~" && inc != "~")
+	}
 }
 
 // stepLine: for a batch that reaches the index as ONE change (deterministic: one insert worker), the
@@ -350,7 +456,7 @@ func (r *Runner) Search(o Op) {
 	}
 	// ... and to the vector each live point's document carries right now (the property speaks about
 	// "the point's stored vector": the index must have followed every change of the document)
-	docDq, err := r.Sim.DocDists(q.Vec, d)
+	docDq, err := r.Sim.DocDists(q.Vec, d, r.PostTrain)
 	if err != nil {
 		r.fail("dist-error", err.Error())
 		return
